@@ -6,6 +6,7 @@ import (
 	"context"
 	"encoding/xml"
 	"fmt"
+	"strconv"
 	"strings"
 	"time"
 
@@ -65,6 +66,30 @@ func probe(f []string) string {
 		return ""
 	}
 	switch f[0] {
+	case "semver.big":
+		// semver.big <Sys> <operator> <n>: a version of n dot-separated components behind an
+		// operator (counters narrower than int wrap at 2^15 and 2^16 components); Go-only because
+		// the Lean model needs minutes on inputs of this size
+		sys, ok := semverops.SysNames[arg(1)]
+		n, err := strconv.Atoi(arg(3))
+		if !ok || err != nil || n < 1 || n > 200000 {
+			return "bad-op"
+		}
+		v := "1" + strings.Repeat(".1", n-1)
+		if sys == semver.Go {
+			v = "v" + v
+		}
+		if c, err := sys.ParseConstraint(arg(2) + v); err == nil {
+			c.Match(v)
+			_ = c.Set().String()
+			c.HasPrerelease()
+		}
+		if pv, err := sys.Parse(v); err == nil {
+			pv.Canon(true)
+			pv.Compare(pv)
+			sys.MinVersion(pv)
+		}
+		sys.Compare(v, v+".1")
 	case "semver.api":
 		// semver.api <Sys> <constraint> <version> <Sys2> <version2>: the rest of util/semver's
 		// exported API (accessors, printers, Set methods, cross-system Compare, MinVersion) on
@@ -443,6 +468,16 @@ func run(c *fw.Ctx) {
 			v = semverops.GenCVersion(c.Rng, sys)
 		}
 		one(fmt.Sprintf("C04 probe semver.api %s %s %s %s %s", fw.Hx(sys.String()), fw.Hx(cs), fw.Hx(v), fw.Hx(sys2.String()), fw.Hx(semverops.GenVersion(c.Rng, sys2))))
+	}
+	for _, sys := range semverops.Systems {
+		for _, op := range []string{"", "~>", "~=", "^", "~", ">=", ">", "<", "=="} {
+			for _, n := range []int{32767, 32768, 40000, 65536} {
+				if !c.Thor && !((op == "~>" || op == "~=") && n == 40000) && c.Rng.Intn(6) != 0 {
+					continue
+				}
+				one(fmt.Sprintf("C04 probe semver.big %s %s %s", fw.Hx(sys.String()), fw.Hx(op), fw.Hx(strconv.Itoa(n))))
+			}
+		}
 	}
 	m := c.N(1500, 40000)
 	for i := 0; i < m; i++ {
